@@ -98,16 +98,21 @@ Fixpoint arun (m : amap) (ops : list op) : amap * list ret :=
 Definition holds (t : tree) (m : amap) : Prop :=
   forall k j, In (k, j) (elems t) <-> m k = Some j.
 
+(* a state of the container that some finite history of operations produces from the empty tree *)
+Definition reachable (t : tree) : Prop := exists ops rs, run E ops = (t, rs).
+
 (* ------------------------------------------------------------------ pointer structure *)
 
 (* h is a consistent parent-linked binary tree with root `root`:
-   one record per node id; every child link is answered by the child's parent field; every parent
+   one record per node id; every child link is answered by the child's parent field; the two
+   children of a node are different nodes; every parent
    field is answered by a child link of that parent; exactly the root has a null parent. *)
 Definition links_consistent (root : option id) (h : list (id * hnode)) : Prop :=
   NoDup (map fst h) /\
   (forall i n, In (i, n) h ->
      (forall j, h_left n = Some j -> exists m, In (j, m) h /\ h_parent m = Some i) /\
      (forall j, h_right n = Some j -> exists m, In (j, m) h /\ h_parent m = Some i) /\
+     (forall j, h_left n = Some j -> h_right n <> Some j) /\
      (forall p, h_parent n = Some p ->
         exists m, In (p, m) h /\ (h_left m = Some i \/ h_right m = Some i)) /\
      (h_parent n = None -> root = Some i)) /\
